@@ -34,7 +34,7 @@ CHECKS = {
               "sender's parity, seq_no, ack flag, body of 0..65536 bytes); c2s: Encrypted.Serialize is opened by the reference server; s2c: a "
               'reference-sealed packet with 0-15 padding bytes is opened by DeserializeEncrypted; plain: exact byte layout. Non-trivial: '
               'body length > 0; distinct by hash of all inputs.'),
-        must_hit=['c2s:len%%16=%d' % r for r in range(16)] + ['s2c:len%%16=%d' % r for r in range(16)] + ['c2s:ack=true', 'c2s:ack=false', 'plain:len%16=0'],
+        must_hit=['c2s:len%%16=%d' % r for r in range(16)] + ['s2c:len%%16=%d' % r for r in range(16)] + ['c2s:ack=true', 'c2s:ack=false', 'plain:len%16=0', 'concurrent:c2s', 'concurrent:s2c'],
         assumptions=['crypto/aes, crypto/sha1 of the standard library', 'client seq_no counter is even and client msg_ids are multiples of 4 (as the client produces them)',
                      'padding content is not compared (the protocol leaves it free)'],
     ),
@@ -271,7 +271,7 @@ CHECKS = {
               'Oracle: CreateConnection returns a non-nil error (a panic is not an error return), no session file afterwards, no encrypted frame reaches the server, child alive.'),
         must_hit=['step:resPQ', 'step:dhParams', 'step:dhInner', 'step:dhGen', 'fault:resPQ.fingerprints:empty', 'fault:dhInner.sha1:prefix-flip', 'fault:dhInner.sha1:content-flip',
                   'fault:dhGen.new_nonce_hash:flip', 'fault:dhGen.kind:gen_retry', 'fault:dhGen.kind:gen_fail', 'fault:dhParams.kind:params_fail', 'verdict:ok'],
-        fold={'fault:': ('fault_classes_covered', 41)},
+        fold={'fault:': ('fault_classes_covered', 59)},
         assumptions=['not generated because the statement does not list them: a different server_nonce in resPQ (the server chooses it), corrupted pq, g, dh_prime, g_a, server_time'],
     ),
     'C19': dict(
